@@ -210,6 +210,10 @@ dt_io_find_strpdt2(
 
 			if (UNLIKELY(q < str)) {
 				q = str;
+			} else if (q > str && *q >= '0' && *q <= '9' &&
+				   q[-1] >= '0' && q[-1] <= '9') {
+				/* the number started further left */
+				continue;
 			}
 
 			for (; q < zp && q <= r; q++) {
@@ -534,7 +538,7 @@ calc_grep_atom(const char *fmt)
 			break;
 
 		case DT_SPFL_N_EPOCH:
-			res.pl.off_min += -10;
+			res.pl.off_min += -11;
 			res.pl.off_max += -1;
 			res.pl.flags |= GRPATM_DIGITS;
 			break;
